@@ -286,6 +286,8 @@ def field_faults(table: str, row: Dict[str, Any]) -> Iterator[Tuple[str, str, Di
             yield f("transaction_type", "type not allowed in this table", bad)
         yield f("transaction_type", "unknown transaction type", "FOO")
         yield f("transaction_type", "empty mandatory cell", None)
+        yield f("spot_price", "unresolved DaLI value (__unknown) where a number is required", "__unknown")
+        yield f("fiat_in_no_fee", "unresolved DaLI value (__unknown) where a number is required", "__unknown")
         for fld in ("spot_price", "crypto_in"):
             yield f(fld, "zero where a positive number is required", "0")
             yield f(fld, "negative number", "-1")
@@ -311,6 +313,7 @@ def field_faults(table: str, row: Dict[str, Any]) -> Iterator[Tuple[str, str, Di
         else:
             yield f("crypto_out_no_fee", "fee-typed row with an amount besides the fee", "1")
             yield f("crypto_fee", "zero where a positive number is required", "0")
+        yield f("crypto_out_no_fee", "unresolved DaLI value (__unknown) where a number is required", "__unknown")
         for fld in ("spot_price", "crypto_out_no_fee", "crypto_fee"):
             yield f(fld, "negative number", "-1")
             yield f(fld, "text where a number is required", "abc")
